@@ -20,7 +20,7 @@ neigh() {
 }
 for p in "$@"; do
   for l in $letters; do
-    d=/tmp/mut/$p/$l
+    d=${MUT_DIR:-/tmp/mut}/$p/$l
     [ -f $d/patch.diff ] || { echo "$d: no patch"; continue; }
     out=$(MUT_WT=/tmp/wt/m-$p tools/evalmut.sh $d $p 2>&1)
     echo "$out"
